@@ -349,6 +349,10 @@ def _check_one(i: int):
     else:
         verdict = 'unknown'
         reason = s.reason_unknown()
+        # before giving up (and before a previously discharged clause is reported as regressed): one more attempt with a 3x budget
+        s3, r3 = _solve(ob, ground_ax, _ground_injectivity(list(ob.pc) + [ob.goal]) if quant_ax else [], _TIMEOUT_MS * 3)
+        if r3 == z3.unsat:
+            return i, 'unsat', None, time.time() - t0, 'z3 (3x budget)', None
         if os.environ.get('PYVC_NO_CVC5') != '1':
             try:
                 r2 = _cvc5_check(s.to_smt2().replace('(check-sat)', ''), max(3, min(6, _TIMEOUT_MS // 2000)))
